@@ -1,5 +1,6 @@
 import SpVerif.Lemmas.DaskFacts
 import SpVerif.Props.C04
+import SpVerif.Lemmas.DaskJoin
 import Mathlib.Data.List.Induction
 /-!
 # C06 — a Dask geo frame answers exactly like the pandas frame it represents
@@ -156,6 +157,36 @@ theorem C06_cx_sound (b : Box) (parts : List Part) (i j : Nat) (h : (i, j) ∈ d
   simp only [Prod.mk.injEq] at he
   obtain ⟨rfl, rfl⟩ := he
   exact ⟨hi', hj'⟩
+
+/-- **sjoin, how='left'**: joining every partition on its own with the right rows whose box overlaps the partition's bounds
+(`right_df.iloc[right_sindex.intersects(bounds)]`) and concatenating gives, row for row and in the same order, the left join of the
+concatenated frame - for every split of the rows into partitions, empty and all-missing partitions included -/
+theorem C06_sjoin_left (parts : List (List (Option Pt))) (right : List (Option Elem))
+    (hw : ∀ e, some e ∈ right → Join.WFElem e) :
+    DaskJoin.daskJoin .left right (DaskJoin.keepOverlap right) 0 parts = Join.join .left parts.flatten right := by
+  rw [DaskJoin.daskJoin_left right _ parts 0 (fun P _ i j hi h => DaskJoin.keepOverlap_sound right hw P i j hi h), DaskJoin.shift_zero]
+
+/-- **sjoin, how='inner'**: the same rows as the inner join of the concatenated frame (pandas orders them by right row, Dask by
+partition: equal as multisets); partitions without any candidate contribute nothing, as when they are skipped -/
+theorem C06_sjoin_inner (parts : List (List (Option Pt))) (right : List (Option Elem))
+    (hw : ∀ e, some e ∈ right → Join.WFElem e) :
+    (DaskJoin.daskJoin .inner right (DaskJoin.keepOverlap right) 0 parts).Perm (Join.join .inner parts.flatten right) := by
+  have := DaskJoin.daskJoin_inner right _ parts 0 (fun P _ i j hi h => DaskJoin.keepOverlap_sound right hw P i j hi h)
+  rwa [DaskJoin.shift_zero] at this
+
+/-- any candidate set that contains the overlapping rows gives the same result (what the index returns for a NaN query box does
+not matter) -/
+theorem C06_sjoin_pruning_irrelevant (how : Join.How) (hhow : how ≠ .right) (P : List (Option Pt)) (right : List (Option Elem))
+    (k : Nat → Bool) (hs : ∀ i j, i < P.length → Join.hit (P.getD i none) (right.getD j none) = true → k j = true) :
+    DaskJoin.joinK how P right k = Join.join how P right :=
+  DaskJoin.joinK_eq how hhow P right k hs
+
+/-! non-vacuity: two partitions (the second all missing), pruning drops the far polygon for the first partition -/
+example : DaskJoin.keepOverlap [some (.polygon [[(0,0),(4,0),(4,4),(0,4),(0,0)]]), some (.polygon [[(50,50),(54,50),(54,54),(50,50)]])]
+            [some (1, 1), some (3, 2)] 1 = false ∧
+          DaskJoin.daskJoin .left [some (.polygon [[(0,0),(4,0),(4,4),(0,4),(0,0)]]), some (.polygon [[(50,50),(54,50),(54,54),(50,50)]])]
+            (DaskJoin.keepOverlap [some (.polygon [[(0,0),(4,0),(4,4),(0,4),(0,0)]]), some (.polygon [[(50,50),(54,50),(54,54),(50,50)]])])
+            0 [[some (1, 1), some (3, 2)], [none]] = [(some 0, some 0), (some 1, some 0), (some 2, none)] := by decide
 
 /-! non-vacuity: three partitions, one of them without any bounds -/
 example : daskTotalBounds [[some (.line [(0,0),(1,1)]), none], [none], [some (.line [(5,5),(6,6)]), some (.line [(2,2),(9,9)])]]
